@@ -96,8 +96,56 @@ def key(k):
     return 'k%d' % k
 
 
+def enc(v):
+    """The value stored for the integer code v.  Codes below 1000 are stored as the plain integer; a code
+    1000*t + n (t = 1..5) is stored as a value of another Python type (list, dict, numpy array, str, tuple with
+    None), so that overwriting a key also changes the type of what is stored under it (an HDF5 dataset becomes a
+    group and vice versa, ...).  canon() maps the value read back to the code again, or to its repr when it is not
+    exactly what enc() produced."""
+    t = v // 1000 if isinstance(v, int) else 0
+    if t == 1:
+        return [v, 'x']
+    if t == 2:
+        return {'v': v, 'w': [v]}
+    if t == 3:
+        import numpy as np
+        return np.arange(3) + v
+    if t == 4:
+        return 's%d' % v
+    if t == 5:
+        return (v, None)
+    return v
+
+
+def _same_value(a, b):
+    import numpy as np
+    if type(a) is not type(b):
+        return False
+    if isinstance(a, np.ndarray):
+        return a.dtype == b.dtype and a.shape == b.shape and bool((a == b).all())
+    if isinstance(a, (list, tuple)):
+        return len(a) == len(b) and all(_same_value(x, y) for x, y in zip(a, b))
+    if isinstance(a, dict):
+        return sorted(a) == sorted(b) and all(_same_value(a[k], b[k]) for k in a)
+    return a == b
+
+
 def canon(v):
+    code = None
     try:
+        if isinstance(v, list):
+            code = v[0]
+        elif isinstance(v, dict):
+            code = v['v']
+        elif isinstance(v, tuple):
+            code = v[0]
+        elif isinstance(v, str):
+            code = int(v[1:])
+        elif hasattr(v, 'shape') and getattr(v, 'ndim', 0) == 1:
+            code = int(v[0])
+        if code is not None:
+            code = int(code)
+            return code if code >= 1000 and _same_value(enc(code), v) else repr(v)
         return int(v)
     except Exception:
         return repr(v)
@@ -112,7 +160,7 @@ def cache_op(caches, op):
     c = caches[ci]
     try:
         if kind == 'set':
-            c[key(op[2])] = op[3]
+            c[key(op[2])] = enc(op[3])
             return ['none']
         if kind == 'getitem':
             return ['val', canon(c[key(op[2])])]
@@ -126,9 +174,9 @@ def cache_op(caches, op):
             r = c.pop(key(op[2]), _MISSING)
             return ['absent'] if r is _MISSING else ['val', canon(r)]
         if kind == 'setdefault':
-            return ['val', canon(c.setdefault(key(op[2]), op[3]))]
+            return ['val', canon(c.setdefault(key(op[2]), enc(op[3])))]
         if kind == 'update':
-            c.update({key(k): v for k, v in op[2]})
+            c.update({key(k): enc(v) for k, v in op[2]})
             return ['none']
         if kind == 'clear':
             c.clear()
@@ -156,7 +204,7 @@ def cache_op(caches, op):
             c.long_term_storage.preload(key(op[2]))
             return ['none']
         if kind == 's_save':
-            c.long_term_storage.save(key(op[2]), op[3])
+            c.long_term_storage.save(key(op[2]), enc(op[3]))
             return ['none']
         if kind == 's_delete':
             c.long_term_storage.delete(key(op[2]))
@@ -577,7 +625,7 @@ def run_fstore(case):
                 if kind == 'load':
                     o = ['val', canon(c.load(key(op[2])))]
                 elif kind == 'save':
-                    c.save(key(op[2]), op[3])
+                    c.save(key(op[2]), enc(op[3]))
                     o = ['none']
                 elif kind == 'delete':
                     c.delete(key(op[2]))
